@@ -6,7 +6,8 @@ open Proto C15
 request:  run <atoms> <edges> <params>
   atom   = [ key name|- chain|- resid|- resname|- icode|- oldresid|- pos ]   pos = - (missing) | [ ] (nan) | [ x y z ]
   edge   = [ u v ]
-  params = [ names sep upper2 [ bn bd ] [ mn md ] [ [ d2 kn kd ] ... ] dom ]   dom = [ 0 ] | [ 1 ] | [ 2 [ [ a b ] ... ] ]
+  params = [ names sep upper2 [ bn bd ] [ mn md ] [ [ d2 kn kd ] ... ] dom decay ]   dom = [ 0 ] | [ 1 ] | [ 2 [ [ a b ] ... ] ]
+           decay = - | [ [ an ad ] [ ln ld ] p ]   (integer power p: lets the model decide where the constant is the base exactly)
 response: error [ keys ] | none | nanwarn | bonds [ [ a b len5 kn kd ] ... ]
 -/
 
@@ -51,11 +52,19 @@ def domOf (t : Tok) : Option Domain := do
   | [Tok.int 2, rs] => pure (Domain.regions (← (← rs.list?).mapM pairOf))
   | _ => none
 
+/-- decay = - | [ [ an ad ] [ ln ld ] p ] -/
+def decayOf (t : Tok) : Option (Option Decay) :=
+  match t with
+  | Tok.none => some none
+  | Tok.list [a, lo, p] => do pure (some { a := ← ratOf a, lower := ← ratOf lo, p := ← p.nat? })
+  | _ => none
+
 def paramsOf (t : Tok) : Option Params := do
   match ← t.list? with
-  | [names, sep, up2, base, minf, ktab, dom] =>
+  | [names, sep, up2, base, minf, ktab, dom, decay] =>
       pure { names := ← strs? names, sep := ← sep.nat?, upper2 := ← up2.nat?, base := ← ratOf base,
-             minForce := ← ratOf minf, kTab := ← (← ktab.list?).mapM ktabOf, dom := ← domOf dom }
+             minForce := ← ratOf minf, kTab := ← (← ktab.list?).mapM ktabOf, dom := ← domOf dom,
+             decay := ← decayOf decay }
   | _ => none
 
 def optIntOf (t : Tok) : Option (Option Int) := t.optInt?
@@ -162,6 +171,13 @@ def handle (_ : Unit) (toks : List Tok) : Unit × String :=
         let p ← paramsOf params
         pure (encOutcome (run as es p))
     | [Tok.str "len5", d2] => do pure (encNat (len5Of (← d2.nat?)))
+    | [Tok.str "lenbounds", d2] => do
+        let b := lenBounds (← d2.nat?)
+        pure (encNat b.1 ++ " " ++ encNat b.2)
+    | [Tok.str "nodecay", dec, d2] => do
+        match ← decayOf dec with
+        | some d => pure (encBool (noDecay d (← d2.nat?)))
+        | none => none
     | [Tok.str "resolve", proc, vars] => do
         let p ← procOf proc
         let vs ← (← vars.list?).mapM varOf
